@@ -3,6 +3,7 @@ CONSTANTS
   CombSet = {"WhenAll", "WhenAny", "Unwrap"}
   N = 5
   Fixed = TRUE
+  Follow = FALSE
 INVARIANT NoViolation
 INVARIANT Structural
 CHECK_DEADLOCK FALSE
